@@ -88,7 +88,12 @@ class BuckGophermapHandler(BaseHandler):
                         # The selector comes from the file's text: look at the
                         # filesystem only for one a client could request too.
                         if isselectorsecure(selector) and self.vfs.exists(selector):
-                            entry.populatefromvfs(self.vfs, selector)
+                            try:
+                                entry.populatefromvfs(self.vfs, selector)
+                            except OSError:
+                                # Gone (or unreadable) since exists() looked:
+                                # send the line without the extra attributes.
+                                pass
                     self.entries.append(entry)
                 else:  # Info line
                     line = line.strip()
